@@ -7,6 +7,7 @@ import (
 	"encoding/base64"
 	"encoding/json"
 	"fmt"
+	"io"
 	"math"
 	"net/http/httptest"
 	"net/url"
@@ -80,6 +81,10 @@ func runC03(c *Ctx) {
 		"Query": getRule("/c03/q/{name}"),
 		"Star":  postRule("/c03/star/{name}/{nested.s}", "*"),
 		"Field": postRule("/c03/field/{name}", "nested"),
+		// literal siblings of the variables under OTHER verbs: a value equal to the literal still belongs to the variable
+		"LitQ": {Pattern: &annotations.HttpRule_Delete{Delete: "/c03/q/latest"}},
+		"LitS": {Pattern: &annotations.HttpRule_Put{Put: "/c03/star/latest/deep"}, Body: "*"},
+		"LitF": {Pattern: &annotations.HttpRule_Delete{Delete: "/c03/field/latest"}},
 	})
 	if err != nil {
 		c.SpecFail("fixture", "c03", err.Error(), "registered", "C03/fixture", "fixture registration failed")
@@ -132,13 +137,24 @@ func runC03(c *Ctx) {
 		}
 	}
 	// ---------- bool
-	for _, raw := range []string{"true", "false", "null", " true", "True", "TRUE", "1", "0", "t", "", "\"true\"", "yes"} {
+	for _, raw := range []string{"true", "false", "null", " true", "True", "TRUE", "1", "0", "t", "", "\"true\"", "yes", "T", "f", "F", "False", "FALSE", "tRuE", "on", "2", "true ", "nul", "truefalse"} {
 		v, ok := implParse(fx, "flag", raw)
 		impl := "err"
 		if ok {
 			impl = "ok " + strconv.FormatBool(v.Bool())
 		}
 		c.Correspond("parsebool", join("parsebool", hexS(raw)), impl, raw != "")
+		// proto3 JSON spells a bool `true` or `false` (null = absent); anything else is not a bool
+		core := strings.Trim(raw, " \t\r\n") // surrounding JSON white space: no demand either way
+		valid := core == "true" || core == "false" || core == "null"
+		if raw != core {
+			continue
+		}
+		if ok && !valid {
+			c.SpecFail("parsebool", "flag "+strconv.Quote(raw), impl, "rejected", "C03/bool/coerced", "text that is not a proto3 JSON bool is coerced to a bool")
+		} else if !ok && valid {
+			c.SpecFail("parsebool", "flag "+strconv.Quote(raw), impl, "accepted", "C03/bool/valid-rejected", "a valid bool text is rejected")
+		}
 	}
 	// ---------- bytes: four encodings x every short length, plus junk
 	encs := []*base64.Encoding{base64.StdEncoding, base64.RawStdEncoding, base64.URLEncoding, base64.RawURLEncoding}
@@ -383,7 +399,7 @@ func dropEmptyNested(m *dynamicpb.Message) {
 
 func c03API(c *Ctx, pf *paramFx) {
 	fx := pf.fx
-	names := []string{"n1", "é日", "~tilde", "q=1&r", "a+b", "x.y-z_0", "(a)!$'*,;@", "0"}
+	names := []string{"n1", "é日", "~tilde", "q=1&r", "a+b", "x.y-z_0", "(a)!$'*,;@", "0", "latest", "latest"}
 	outside := []string{"hello world", "50%", "a b+c", "x%2Fy", "what?", "#1"}
 	for i := 0; i < c.N(400, 8000); i++ {
 		shape := []string{"Query", "Star", "Field"}[c.Rng.Intn(3)]
@@ -395,6 +411,9 @@ func c03API(c *Ctx, pf *paramFx) {
 		}
 		M.Set(fs.ByName("name"), protoreflect.ValueOfString(name))
 		nestedS := "ns-" + strconv.Itoa(c.Rng.Intn(100))
+		if name == "latest" && c.Rng.Intn(2) == 0 {
+			nestedS = "deep" // the literal route /c03/star/latest/deep exists, for PUT only
+		}
 		var reqURL string
 		var body []byte
 		ct := []string{"application/json", "application/protobuf"}[c.Rng.Intn(2)]
@@ -485,7 +504,7 @@ func c03API(c *Ctx, pf *paramFx) {
 		}
 	}
 	// invalid text for the field's type is rejected, not coerced (through the whole stack)
-	bad := []struct{ q, what string }{{"i32=1.5", "fraction"}, {"i32=2147483648", "overflow"}, {"u32=-1", "negative-unsigned"}, {"u32=4294967296", "overflow-u32"}, {"i64=9223372036854775808", "overflow-i64"}, {"flag=yes", "bool"}, {"kind=NOPE", "enum-name"}, {"data=%21%21", "base64"}, {"ts=yesterday", "timestamp"}, {"fl=3.5e38", "float32-overflow"}, {"fl=abc", "float-text"}, {"db=1e400", "double-overflow"}, {"i32=%2B1", "plus-sign"}, {"i32=01", "leading-zero"}, {"ri=1&ri=x", "repeated-element"}, {"nope=1", "unknown-field"}, {"nested.nope=1", "unknown-nested"}, {"m.k=v", "map"}}
+	bad := []struct{ q, what string }{{"i32=1.5", "fraction"}, {"i32=2147483648", "overflow"}, {"u32=-1", "negative-unsigned"}, {"u32=4294967296", "overflow-u32"}, {"i64=9223372036854775808", "overflow-i64"}, {"flag=yes", "bool"}, {"flag=1", "bool-1"}, {"flag=True", "bool-True"}, {"flag=t", "bool-t"}, {"flag=0", "bool-0"}, {"flag=FALSE", "bool-FALSE"}, {"kind=NOPE", "enum-name"}, {"data=%21%21", "base64"}, {"ts=yesterday", "timestamp"}, {"fl=3.5e38", "float32-overflow"}, {"fl=abc", "float-text"}, {"db=1e400", "double-overflow"}, {"i32=%2B1", "plus-sign"}, {"i32=01", "leading-zero"}, {"ri=1&ri=x", "repeated-element"}, {"nope=1", "unknown-field"}, {"nested.nope=1", "unknown-nested"}, {"m.k=v", "map"}}
 	for _, b := range bad {
 		pf.got = nil
 		rec, pn := fx.Serve(httptest.NewRequest("GET", "/c03/q/n?"+b.q, nil))
@@ -736,6 +755,9 @@ func normValue(field, text string) string {
 }
 
 // c07Extra: message-typed path variables, many parameters, and the WebSocket transport.
+// upViaReader: the upload handler of c07Extra reads through AsHTTPBodyReader instead of RecvMsg.
+var upViaReader bool
+
 func c07Extra(c *Ctx) {
 	var got *dynamicpb.Message
 	h := func(ctx context.Context, in *dynamicpb.Message) (proto.Message, error) {
@@ -759,6 +781,30 @@ func c07Extra(c *Ctx) {
 		{Name: "Ts", In: "Req", Out: "Reply", Unary: h, Rule: getRule("/c07x/ts/{ts}")},
 		{Name: "Many", In: "Req", Out: "Reply", Unary: h, Rule: getRule("/c07x/many/{name}/{nested.s}")},
 		{Name: "Ws", In: "Req", Out: "Reply", ClientStream: true, ServerStream: true, Stream: ws, Rule: customRule("WEBSOCKET", "/c07x/ws/{name}", "*")},
+		{Name: "Oa", In: "Req", Out: "Reply", Unary: h, Rule: getRule("/c07x/oa/{oa}")},
+		{Name: "OaB", In: "Req", Out: "Reply", Unary: h, Rule: postRule("/c07x/oab/{oa}", "*")},
+		{Name: "Up", In: "Req", Out: "Reply", ClientStream: true, Rule: postRule("/c07x/up/{name}", "file"),
+			Stream: func(fx *Fixture, ms *MethodSpec, st grpc.ServerStream) error {
+				m := fx.NewMsg("Req")
+				var rd io.Reader
+				var err error
+				if upViaReader {
+					rd, err = larking.AsHTTPBodyReader(st, m)
+				} else {
+					err = st.RecvMsg(m)
+				}
+				if err != nil {
+					return err
+				}
+				if rd != nil {
+					io.Copy(io.Discard, rd) //nolint
+				} else {
+					for st.RecvMsg(fx.NewMsg("Req")) == nil {
+					}
+				}
+				got = m
+				return st.SendMsg(fx.NewMsg("Reply"))
+			}},
 	}, nil)
 	if err != nil || fx.RegErr != nil || fx.RegPanic != nil {
 		c.SpecFail("fixture", "c07 extra", fmt.Sprint(err, fx.RegErr, fx.RegPanic), "", "C07/fixture", "fixture")
@@ -794,6 +840,12 @@ func c07Extra(c *Ctx) {
 	for _, rival := range []string{"fm=owner", "fm.paths=owner", "fm=a,b"} {
 		cases = append(cases, tc{"GET", "/c07x/fm/title?" + rival, "", "fm", `"title"`})
 	}
+	// a oneof member bound by the path: the same member or its sibling in the query / body
+	for _, rival := range []string{"oa=QUERY", "oa=QUERY&oa=Q2"} {
+		cases = append(cases, tc{"GET", "/c07x/oa/PATH?" + rival, "", "oa", "PATH"})
+	}
+	cases = append(cases, tc{"POST", "/c07x/oab/PATH", `{"oa":"BODY"}`, "oa", "PATH"})
+	cases = append(cases, tc{"POST", "/c07x/oab/PATH?oa=QUERY", `{"oa":"BODY","name":"n"}`, "oa", "PATH"})
 	// many parameters of mixed depth around the rivals (any order the query map yields)
 	for rep := 0; rep < c.N(30, 300); rep++ {
 		q := url.Values{}
@@ -836,6 +888,51 @@ func c07Extra(c *Ctx) {
 			nested := got.Get(got.Descriptor().Fields().ByName("nested")).Message()
 			if g := nested.Get(nested.Descriptor().Fields().ByName("s")).String(); g != "PATHNESTED" {
 				c.SpecFail("path-wins-extra", in, "nested.s="+g, "PATHNESTED", "C07/path-overridden/nested.s", "a query parameter replaced the value captured from the path")
+			}
+		}
+	}
+	// HttpBody upload: the handler reads with RecvMsg or through AsHTTPBodyReader
+	for _, via := range []bool{false, true} {
+		for _, q := range []string{"", "?name=QUERY", "?other_name=o&name=QUERY"} {
+			upViaReader = via
+			got = nil
+			r := httptest.NewRequest("POST", "/c07x/up/PATH"+q, strings.NewReader("upload-bytes"))
+			r.Header.Set("Content-Type", "application/octet-stream")
+			rec, pn := fx.Serve(r)
+			upViaReader = false
+			in := fmt.Sprintf("POST /c07x/up/PATH%s (HttpBody upload, handler reads via AsHTTPBodyReader=%v)", q, via)
+			c.Eval("path-wins-upload", in, q != "")
+			c.Class("extra:upload")
+			if pn != nil || rec.Code != 200 || got == nil {
+				c.SpecFail("path-wins-upload", in, fmt.Sprintf("%d %s panic=%v", rec.Code, truncS(rec.Body.String(), 120), pn), "200", "C07/extra/refused", "a valid upload is refused")
+			} else if g := field(got, "name"); g != "PATH" {
+				c.SpecFail("path-wins-upload", in, "name="+g, "PATH", "C07/path-overridden/upload-name", "on an HttpBody upload a query parameter replaced the value captured from the path")
+			}
+		}
+	}
+	// WebSocket: a blank frame before the first message either ends the stream or is skipped — the first
+	// message the handler sees still carries the captured value
+	for _, blank := range []string{"", "\n", " "} {
+		wsFirst = nil
+		url := "ws" + strings.TrimPrefix(fx.HTTPServer().URL, "http") + "/c07x/ws/PATH"
+		ctx, cancel := context.WithTimeout(context.Background(), 3*time.Second)
+		conn, _, _, err := gws.Dial(ctx, url)
+		cancel()
+		in := fmt.Sprintf("websocket /c07x/ws/PATH: blank frame %q, then {\"name\":\"BODY\"}", blank)
+		c.Eval("path-wins-ws", in, true)
+		c.Class("extra:ws-blank")
+		if err != nil {
+			continue
+		}
+		conn.SetDeadline(time.Now().Add(2 * time.Second))
+		wsutil.WriteClientMessage(conn, gws.OpText, []byte(blank))             //nolint
+		wsutil.WriteClientMessage(conn, gws.OpText, []byte(`{"name":"BODY"}`)) //nolint
+		wsutil.ReadServerData(conn)                                            //nolint
+		conn.Close()
+		time.Sleep(5 * time.Millisecond)
+		if wsFirst != nil {
+			if g := field(wsFirst, "name"); g != "PATH" {
+				c.SpecFail("path-wins-ws", in, "name="+g, "PATH (or no message at all)", "C07/path-overridden/ws-name", "over WebSocket the first message the handler received does not carry the value captured from the path")
 			}
 		}
 	}
